@@ -634,6 +634,31 @@ def compactOffenders (m : RawMsg) (s : RawStruct) (f : RawField) : List String :
 def compactLint : List String :=
   Gen.schemas.flatMap fun m => m.structs.flatMap fun s => s.fields.flatMap fun f => compactOffenders m s f
 
+
+/-- the payloads of the record sets of a value, in order -/
+partial def recordPayloads : Val → List Bytes
+  | .records (some p) => [p]
+  | .arr (some xs) => xs.flatMap recordPayloads
+  | .struct vs tvs => vs.flatMap recordPayloads ++ tvs.flatMap recordPayloads
+  | _ => []
+
+/-- `prodfmt <i> <ver> => <frame>`: a Produce request with RecordSet.Version left 0, as protocol.Conn.RoundTrip wrote it at
+version `ver`.  The frame is parsed under the golden schema of that version; every record set in it must be in the format Kafka's
+Produce request of that version carries (magic byte at offset 16: 0 or 1 below v3, 2 from v3 on); model = the magic that
+`Prepare` picks according to the regenerated `Gen.Routing.produceRecordVersion`. -/
+def stepProdFmt (i ver impl : String) : String :=
+  match getCase i ver, ofHex impl with
+  | some c, some raw =>
+    let (rt, _) := refTy c
+    match Spec.parseRequest c.r.flexible rt raw with
+    | none => answer "unparsable-under-the-golden-schema" false
+    | some (_, _, v) =>
+      let magics := (recordPayloads v).map fun p => (p.getD 16 255).toNat
+      let want : Nat := (KV.Gen.Routing.produceRecordVersion c.ver).toNat
+      let kafkaOk := !magics.isEmpty && magics.all fun m => if c.ver < 3 then m == 0 || m == 1 else m == 2
+      answer (if magics.all (· == want) && kafkaOk then impl else s!"record sets of magic {want}") (magics.all (· == want) && kafkaOk)
+  | _, _ => "bad-case"
+
 def step (line : String) : String :=
   match line.splitOn " => " with
   | [req, impl] =>
@@ -642,6 +667,7 @@ def step (line : String) : String :=
     | ["legread", i, ver, _name, body] => stepLegRead i ver body impl
     | ["lint", "compact"] => answer (",".intercalate compactLint) true
     | ["selver", i, b0, b1] => stepSelVer i b0 b1 impl
+    | ["prodfmt", i, ver] => stepProdFmt i ver impl
     | ["tver", k, a] => stepTVer k a impl
     | "marshal" :: j :: ver :: rest => stepMarshal "marshal" j ver rest impl
     | "unmarshal" :: j :: ver :: rest => stepMarshal "unmarshal" j ver rest impl
